@@ -48,11 +48,11 @@ F19Starts(s0, e) ==
               \E i \in 1..Len(e.sizes) : e.sizes[i].pending + e.sizes[i].cancellers + e.sizes[i].unacked > 0}
     ELSE {}
 
-(* ---- F22: retrying a fan-out whose failing branch state is not a Task/Wait: the held events
-        (the trigger included) are acknowledged by check_pending_results before the retry
-        event is republished. *)
+(* ---- F22: a retry decided while the execution has branch metadata (the retry of a fan-out, or of a
+        Task inside a branch): check_pending_results acknowledges the held events (the trigger
+        included, unless it is a Task/Wait event) before the retry event is republished. *)
 F22Here(s0, e, f) ==
-    /\ f.clause = "TriggerAckLast:pub" /\ e.k = "pub" /\ e.retry > 0 /\ Len(e.stack) < KMaxTrigDepth(s0)
+    /\ f.clause = "TriggerAckLast:pub" /\ e.k = "pub" /\ e.retry > 0 /\ KMaxTrigDepth(s0) >= 1
 
 (* ---- F24: a fan-out is retried while siblings of the failed attempt are still outstanding; when
         a stale sibling is finally wound up, check_pending_results cancels the pending tasks of
@@ -113,6 +113,8 @@ Territory(s0, s1, e, f, active) ==
     ELSE IF "F18" \in active /\ f.clause \in F18Clauses /\ F18Frame(s0) THEN "F18"
     ELSE IF "F18" \in active /\ f.clause = "SiblingsCancelled" /\ f.w = ToString({"delegate"}) THEN "F18"
     ELSE IF "F18" \in active /\ f.clause = "SiblingsCancelled" /\ AnyTaint(s1, "F18") THEN "F18"
+    (* the request a late deferred handler sent is answered later: its consequences belong to F18 too *)
+    ELSE IF "F18" \in active /\ f.clause \in F18Clauses /\ f.x # "" /\ "F18" \in TaintsOf(s1, f.x) THEN "F18"
     ELSE IF "F16" \in active /\ f.clause \in F16Clauses /\
             (IF f.x # "" THEN "F16" \in TaintsOf(s1, f.x) ELSE AnyTaint(s1, "F16")) THEN "F16"
     ELSE IF "F16" \in active /\ f.clause \in F16dClauses /\ f.x # "" /\ "F16d" \in TaintsOf(s1, f.x) THEN "F16"
